@@ -577,6 +577,20 @@ def build(sc, ctx, extra_hooks=(), counting=False, plain=False, shared=None):
             ccs[vcc[name]] = {}
     desc['convergence_controllers'] = ccs
     hooks = ([] if plain else [make_observer(ctx)]) + [resolve(h) for h in cfg.get('hooks', [])] + list(extra_hooks)
+    if sc.get('between_steps_work') and not plain:
+        # a user hook listed last that works with the step's problem after the step (as the shipped error hooks do through u_exact)
+        from pySDC.core.hooks import Hooks
+
+        nwork = int(sc['between_steps_work'])
+
+        def _post_step(self, step, level_number):
+            Hooks.post_step(self, step, level_number)
+            L = step.levels[0]
+            for _ in range(nwork):
+                L.prob.eval_f(L.u[0], L.time)
+            ctx.res.fault('work_between_steps')
+
+        hooks.append(type('BetweenStepsWork', (Hooks,), {'post_step': _post_step}))
     cparams = {'logger_level': 90, 'dump_setup': False, 'hook_class': hooks, **cfg.get('controller', {})}
     if shared is not None:
         if not shared:
